@@ -171,6 +171,7 @@ def run_job(job):
         st, reason = 'undecided', 'cbmc gave no verdict (rc=%d)' % rc
     if re.search(r'ignoring (forall|exists)', out):
         st, reason = 'undecided', 'quantifier ignored by back end'
+    job.cmd_c = cmd_c
     return {'status': st, 'reason': reason, 'results': res, 'log': out, 'wall': wall,
             'cmd': ' '.join(shlex.quote(c) for c in cmd_i) + ' && ' + ' '.join(shlex.quote(c) for c in cmd_c), 'binary': base + '.b.gb'}
 
@@ -235,3 +236,17 @@ def trace_for(job, prop, timeout=300):
             vals.setdefault(lhs, []).append({'value': v.get('data', v.get('name')), 'binary': v.get('binary'), 'fn': fn,
                                              'line': (s.get('sourceLocation') or {}).get('line')})
     return vals, out[-2000:]
+
+
+def cross_check(job, r, solver='cadical'):
+    """thorough tier: the same instrumented binary on a second SAT back end; every obligation must get the same verdict"""
+    cmd = list(job.cmd_c[:-1]) + ['--sat-solver', solver, job.cmd_c[-1]]
+    rc, out, wall = sh(cmd, job.timeout)
+    if rc == -9:
+        return {'solver': solver, 'agree': None, 'note': 'timeout', 'wall': wall}
+    res2 = {(x['name'], x['line'], x['desc']): x['status'] for x in parse_results(out)}
+    res1 = {(x['name'], x['line'], x['desc']): x['status'] for x in r['results']}
+    diff = [k[0] for k in res1 if k in res2 and res1[k] != res2[k]]
+    if len(res1) != len(res2):
+        diff.append('obligation sets differ (%d vs %d)' % (len(res1), len(res2)))
+    return {'solver': solver, 'agree': not diff, 'differences': diff[:10], 'wall': wall}
